@@ -320,7 +320,7 @@ def run_negative(case):
         want = z3.And(neg, z3.BoolVal((not electric) and role == "baseline"))
         case.prove(p, z3.BoolVal((P + "negative_meter_values") in dq) == want, "negative usage disqualifies exactly non-electric baselines", replay=rp)
         case.prove(p, ((P + "no_data") in dq) == all(s == "nan" or t == "nan" for s, t in zip(st, tst)), "no_data <=> every row has a missing value", replay=rp)
-        case.regime("negative usage on a day without temperature", "interpolated temperature hour", "last supplied days lack usage and temperature", any(s == "val" and t == "nan" for s, t in zip(st, tst)) and (P + "negative_meter_values") in dq)
+        case.regime("negative usage on a day without temperature", any(s == "val" and t == "nan" for s, t in zip(st, tst)) and (P + "negative_meter_values") in dq)
         if (P + "negative_meter_values") in dq:
             case.regime("negative gas usage")
     case.sample(dict(check="_check_negative_meter_values/_check_no_data", rows=n))
@@ -474,7 +474,7 @@ def run_hourly_sdf(case):
         rp = ("hourly-sdf", (lambda st: lambda mdl: dict(states=st, env=_ienv(mdl, case.inputs)))(states))
         pr = _sdf_check(out, states, lambda g, c, i: isinstance(g, SReal) and z3.eq(z3.simplify(lift(g)), z3.Real(f"{c[0]}{i}")))
         case.prove(p, not pr, "hourly: exactly the measured (not filled, not missing) values and hours are counted by the sufficiency test", replay=rp)
-        case.regime("interpolated temperature hour", "last supplied days lack usage and temperature", "interpolated" in states["temperature"])
+        case.regime("interpolated temperature hour", "interpolated" in states["temperature"])
     case.sample(dict(check="_create_sufficiency_df", paths=len(paths)))
 
 
@@ -600,6 +600,20 @@ def ctor_catalogue():
         gas = df.copy()
         gas.iloc[10, 0] = -1.0
         items.append((f"DailyBaselineData(gas, one negative day, {tz})", lambda df=gas: DailyBaselineData(df.copy(), is_electricity_data=False), [P + "negative_meter_values"]))
+    # hourly data classes: complete year; meter data is optional for reporting (temperature-only frames are well formed)
+    from opendsm.eemeter.models.hourly.data import HourlyBaselineData, HourlyReportingData
+    for tz in ("US/Pacific", "Europe/Berlin"):
+        hidx = pd.date_range("2021-01-01", periods=24 * 365, freq="h", tz=tz)
+        hdf = pd.DataFrame({"temperature": 60 + 10 * rng.random(len(hidx)), "observed": 1.0 + rng.random(len(hidx))}, index=hidx)
+        items.append((f"HourlyBaselineData(365 days, {tz})", lambda df=hdf: HourlyBaselineData(df.copy(), is_electricity_data=True), []))
+        items.append((f"HourlyReportingData(365 days with usage, {tz})", lambda df=hdf: HourlyReportingData(df.copy(), is_electricity_data=True), []))
+        items.append((f"HourlyReportingData(365 days, temperature only, {tz})", lambda df=hdf[["temperature"]]: HourlyReportingData(df.copy(), is_electricity_data=True), []))
+        q1 = hdf[["temperature"]][hdf.index < pd.Timestamp("2021-04-01", tz=tz)]  # January-March, whole local days
+        items.append((f"HourlyReportingData(first quarter, temperature only, {tz})", lambda df=q1: HourlyReportingData(df.copy(), is_electricity_data=True), []))
+        gap = hdf.copy()
+        gap.iloc[24 * 40: 24 * 90, 0] = np.nan  # 50 days without temperature: under 90 % of days, and a month under 90 %
+        items.append((f"HourlyBaselineData(50 days without temperature, {tz})", lambda df=gap: HourlyBaselineData(df.copy(), is_electricity_data=True),
+                      [P + "too_many_days_with_missing_data", P + "too_many_days_with_missing_temperature_data", P + "missing_monthly_temperature_data"]))
     return items
 
 
